@@ -228,6 +228,20 @@ func (g G) drawSP(i int, o worldOpts, hardURL bool) SPCfg {
 	} else {
 		c.SLO = []SLOCfg{{Binding: BindPost, URL: base + "/slo" + q}}
 	}
+	// the optional ResponseLocation attribute: equal to Location, or another URL of the SP; the properties name Location only
+	for k := range c.SLO {
+		switch g.weighted(fmt.Sprintf("sp%d.slo%d.rl", i, k), 76, 8, 16) {
+		case 1:
+			c.SLO[k].RespLoc = c.SLO[k].URL
+		case 2:
+			c.SLO[k].RespLoc = fmt.Sprintf("https://return.sp%d.example/%s/slo-return%d%s", i, mk, k, q)
+		}
+	}
+	for k := range c.ACS {
+		if g.chance(fmt.Sprintf("sp%d.acs%d.rl", i, k), 8) {
+			c.ACS[k].RespLoc = fmt.Sprintf("https://return.sp%d.example/%s/acs-return%d%s", i, mk, k, q)
+		}
+	}
 	if g.chance(fmt.Sprintf("sp%d.skew", i), o.skewPct) {
 		c.SkewMs = int64(g.rng(fmt.Sprintf("sp%d.skewMs", i), -600000, 600000))
 	}
@@ -422,13 +436,22 @@ func (g G) planC01() *Plan {
 		ps := Preseed{SP: sp, AuthRequestID: "_pre" + sessionMarker(900+i), RelayState: "relay" + sessionMarker(900+i),
 			ACS: acs.URL, Binding: g.pick(fmt.Sprintf("pre%d.b", i), BindPost, BindRedirect), Done: g.chance(fmt.Sprintf("pre%d.done", i), 50), User: g.intn(fmt.Sprintf("pre%d.u", i), 3)}
 		// stored requests of unusual shape: no consumer URL, a binding the IdP cannot serve, a duplicate AuthnRequest ID
-		switch g.weighted(fmt.Sprintf("pre%d.shape", i), 70, 12, 10, 8) {
+		switch g.weighted(fmt.Sprintf("pre%d.shape", i), 70, 12, 10, 8, 6) {
 		case 1:
 			ps.ACS = ""
 		case 2:
 			ps.Binding = g.pick(fmt.Sprintf("pre%d.oddb", i), BindArtifact, "", "urn:example:binding:unknown")
 		case 3:
 			ps.AuthRequestID = "_pre" + sessionMarker(900)
+		case 4:
+			// a record written by the integrator (or a legacy row) without the SP's AuthnRequest ID, possibly without binding / consumer URL too
+			ps.AuthRequestID = ""
+			switch g.intn(fmt.Sprintf("pre%d.noid", i), 3) {
+			case 1:
+				ps.Binding = ""
+			case 2:
+				ps.ACS = ""
+			}
 		}
 		p.World.Presessions = append(p.World.Presessions, ps)
 	}
@@ -456,6 +479,11 @@ func (g G) planC01() *Plan {
 			}
 			if m.IDMode == "literal" {
 				m.IDLit = g.pick(lab+".idlit", "ar0-", "ar0-000000000000", " ", "%00", "ar0-000000000000&id=x", "../ar0", "ar1-x' OR '1'='1")
+			}
+			// a fault aimed at one particular storage call of this callback (4 = the signing key read)
+			if fp > 0 && g.chance(lab+".fa", fp) {
+				m.FaultAt = []int{4, 4, 3, 2, 1}[g.intn(lab+".fan", 5)]
+				m.FaultKind = g.drawFaultSigning(lab+".fak", 100)
 			}
 			p.Steps = append(p.Steps, Step{K: "send", Msg: m})
 			// biased placement: race the completion against the callback's storage read
